@@ -22,7 +22,8 @@ Sequences: every ordered pair (t1, t2) of the text pool (all texts of <= 2 piece
 longer ones: unclosed spans, closers without opener, unmatched characters, spans closing on the same / a later
 line, texts a grammar rejects) on ONE freshly constructed parser object, (a) t1 parsed (errors caught by the
 caller) then t2 judged, (b) a token generator over t1 advanced by one token and left suspended while t2 is
-judged, then resumed.  Obligation: t2 is handled exactly as t2 alone; the resumed generator delivers t1's tokens.
+judged, then resumed, (c) config iii: the list-of-lines object of t1 parsed, edited in place so that its lines are
+those of t2 (appended / inserted blank / re-indented lines among them), parsed again.  Obligation: t2 is handled exactly as t2 alone; the resumed generator delivers t1's tokens.
 Every reported case is self-contained: a violation seen on re-used objects of the single-text space is re-run
 on freshly constructed ones and reported from there (or as a recorded sequence of texts).
 Trailing blanks of a line: the statement does not say whether they are tokenized (the code strips them
@@ -77,7 +78,8 @@ REQUIRED_FEATURES = [
     "sequence:first:valid-text-with-span", "sequence:first:rejected-by-a-grammar",
     "sequence:second:valid-text", "sequence:second:valid-text-with-span", "sequence:second:unclosed-span",
     "sequence:second:unmatched-character", "sequence:mode:parse-then-parse", "sequence:mode:interleaved",
-    "sequence:generator-suspended",
+    "sequence:generator-suspended", "sequence:mode:same-list-edited-in-place", "edit:line-appended",
+    "edit:blank-line-inserted", "edit:line-re-indented",
 ]
 
 # "\x0c" (form feed) and "\u2028" (line separator) are line boundaries for str.splitlines() but not for the
@@ -120,7 +122,8 @@ def shards(tier):
             sh.append(("upto", alpha, lo, plen - 1))
         sh += [("pfx", alpha, pfx, max(lo, plen), hi) for pfx in itertools.product(range(k), repeat=plen)]
     # sequences of two texts on one freshly constructed parser object: all ordered pairs over seq_pool()
-    sh += [("seq", cfg_name, mode, i) for cfg_name in SEQ_CFGS for mode in SEQ_MODES for i in range(len(seq_pool()))]
+    sh += [("seq", cfg_name, mode, i) for cfg_name in SEQ_CFGS for mode in SEQ_MODES for i in range(len(seq_pool()))
+           if not (mode == "same-list-edited-in-place" and cfg_name != "iii")]
     return sh
 
 
@@ -519,11 +522,15 @@ def shared_world(cfg_name):
     return w
 
 
-def judge_text(world, tokenize, text, form, acc, only_grammar=None):
-    """Judge one text on the given objects.  -> (violations, features, outcome)."""
+def judge_text(world, tokenize, text, form, acc, only_grammar=None, inp_object=None):
+    """Judge one text on the given objects.  -> (violations, features, outcome).
+    inp_object: the (list) object to hand to the library instead of a new one — its content is ``text``."""
     cfg_name = world.cfg_name
     cfg = P.CONFIGS[cfg_name]
     inp, lines = _mk_input(text, form)
+    if inp_object is not None:
+        assert list(inp_object) == lines
+        inp = inp_object
     tx = P.Text(lines)
     case = {"text": text, "form": form, "cfg": cfg_name}
     feats = {"input:" + form, "cfg:" + cfg_name, "lines:one" if len(lines) == 1 else "lines:many"}
@@ -625,7 +632,7 @@ SEQ_PIECES = ["ab", "\n", "/*", "*/", "#", " "]
 SEQ_EXTRA = ["ab /*\n*/ c", "/* x\n", "ab\n/*\nc", "c */ ab", "ab #", "/**/ #", "+ +", "ab +\nc", "/* c */ab",
              "ab\n #"]
 SEQ_GRAMMARS = {"trailing-opt", "sequence-template", "list-template"}
-SEQ_MODES = ("parse-then-parse", "interleaved")
+SEQ_MODES = ("parse-then-parse", "interleaved", "same-list-edited-in-place")
 SEQ_CFGS = ("iii", "i")
 
 
@@ -678,7 +685,27 @@ def run_sequence(cfg_name, mode, t1, t2, acc, report=True):
     case = {"cfg": cfg_name, "mode": mode, "texts": [t1, t2]}
     gen = None
     got1 = []
-    if mode == "parse-then-parse":
+    the_list = None
+    if mode == "same-list-edited-in-place":
+        # one list-of-lines object: parsed, edited in place (here: its lines become those of t2), parsed
+        # again by the same parsers with the same src_name — the second result must be t2's
+        the_list = t1.split("\n")
+        for _, parser in world.parsers:
+            try:
+                parser.parse(the_list)
+            except impl.Error:
+                pass
+        l1, l2 = list(the_list), t2.split("\n")
+        the_list[:] = l2
+        if len(l2) == len(l1) + 1 and l2[:len(l1)] == l1:
+            feats.add("edit:line-appended")
+        if len(l2) == len(l1) + 1 and any(l2[:i] + l2[i + 1:] == l1 and not l2[i].strip() for i in range(len(l2))):
+            feats.add("edit:blank-line-inserted")
+        if len(l2) == len(l1) and l1 != l2 and all(a.strip() == b.strip() for a, b in zip(l1, l2)) and t1.strip():
+            feats.add("edit:line-re-indented")
+        if l1 == l2:
+            feats.add("edit:none")
+    elif mode == "parse-then-parse":
         labels = _apply_step(world, "parse", t1, "str")
         if k1.startswith("valid") and "ParsingError" in labels:
             feats.add("sequence:first:rejected-by-a-grammar")
@@ -691,9 +718,9 @@ def run_sequence(cfg_name, mode, t1, t2, acc, report=True):
         except (StopIteration, impl.Error):
             gen = None
     outcome = "second-text-as-alone"
-    for form in ("str", "list"):
+    for form in (("list",) if the_list is not None else ("str", "list")):
         tokenize = world.parsers[0][1].tokenizer.tokenize
-        v, _, _ = judge_text(world, tokenize, t2, form, acc)
+        v, _, _ = judge_text(world, tokenize, t2, form, acc, inp_object=the_list)
         if v:
             alone = World(cfg_name, SEQ_GRAMMARS)
             va, _, _ = judge_text(alone, alone.parsers[0][1].tokenizer.tokenize, t2, form, acc)
@@ -701,7 +728,8 @@ def run_sequence(cfg_name, mode, t1, t2, acc, report=True):
                 outcome = "second-text-violates-alone"      # reported by the single-text space
                 continue
             sig, c, msg, obs, exp = v[0]
-            after = "a-suspended-token-generator" if mode == "interleaved" else k1
+            after = ("a-suspended-token-generator" if mode == "interleaved" else
+                     "an-in-place-edit-of-the-same-list-object" if the_list is not None else k1)
             viols.append(("C04:sequence:second-text-differs-after-" + after, dict(case, form=form),
                           f"after {after.replace('-', ' ')} on the same parser object the second text is not "
                           f"handled as it is alone: [{sig}] {msg}", obs, exp))
